@@ -537,6 +537,11 @@ def w_nth(job):
 
 
 # ------------------------------------------------------------------------------------------------ driver
+def _dispatch(q):
+    name, fn, job = q
+    return name, globals()[fn](job)
+
+
 def _split(seq, n):
     return [seq[i::n] for i in range(n) if seq[i::n]]
 
@@ -550,16 +555,26 @@ def run(ctx):
     rot = seed % len(cals)
     cals = cals[rot:] + cals[:rot]
 
+    queued = []          # all parts share ONE pool, so no part waits for another part's stragglers
+
     def part(name, fn, jobs):
         if only and name not in only:
             return
-        classes = set()
-        for acc in pmap(fn, jobs):
-            classes |= set(acc.notes.pop("classes", []))
+        queued.extend((name, fn.__name__, jb) for jb in jobs)
+
+    def flush():
+        classes, order = {}, []
+        for name, acc in pmap(_dispatch, list(queued)):
+            if name not in classes:
+                classes[name] = set()
+                order.append(name)
+            classes[name] |= set(acc.notes.pop("classes", []))
             ctx.merge_part(name, acc)
-        fin = Acc()
-        fin.count(nontrivial=len(classes))
-        ctx.merge_part(name, fin)
+        for name in order:
+            fin = Acc()
+            fin.count(nontrivial=len(classes[name]))
+            ctx.merge_part(name, fin)
+        del queued[:]
 
     all_ids = [r[0] for r in RULES]
     jobs = []
@@ -590,6 +605,7 @@ def run(ctx):
     if tier == "thorough":
         ny |= set(range(iso.min_year, iso.max_year + 1, 7)) | set(range(1, 2400))
     part("nth-weekday", w_nth, _split(sorted(ny), 16 if tier == "quick" else 64))
+    flush()
     dl.report_disagreements(ctx, "C16")
     ctx.note("calendars", len(cals))
     ctx.note("rules", len(RULES))
